@@ -89,6 +89,10 @@ func (round *round3) Start() *tss.Error {
 				ch <- vssOut{err, nil}
 				return
 			}
+			if len(PjVs) != round.Threshold()+1 {
+				ch <- vssOut{errors.New("de-commitment has the wrong number of polynomial commitments"), nil}
+				return
+			}
 			proof, err := r2msg2.UnmarshalZKProof(round.Params().EC())
 			if err != nil {
 				ch <- vssOut{errors.New("failed to unmarshal schnorr proof"), nil}
